@@ -523,6 +523,16 @@ class Engine:
             name = e.attr if isinstance(e, ast.Attribute) else getattr(e, "id", "Exception")
         return [(st, ("raise", Raised(name)))]
 
+    def refine_optional(self, test, t, f):
+        """`x is None` / `x is not None` on a local holding an optional value: unwrap it on the not-None side."""
+        if isinstance(test, ast.Compare) and len(test.ops) == 1 and isinstance(test.left, ast.Name) and isinstance(test.comparators[0], ast.Constant) and test.comparators[0].value is None:
+            nm = test.left.id
+            notnone_side, none_side = (t, f) if isinstance(test.ops[0], ast.IsNot) else ((f, t) if isinstance(test.ops[0], ast.Is) else (None, None))
+            if notnone_side is not None and isinstance(notnone_side.env.get(nm), VOpt):
+                notnone_side.env[nm] = notnone_side.env[nm].val
+            if none_side is not None and isinstance(none_side.env.get(nm), VOpt):
+                none_side.env[nm] = VNone()
+
     def stmt_Assert(self, s, st):
         out = []
         for (st2, v) in self.ev(s.test, st):
@@ -531,6 +541,7 @@ class Engine:
                 continue
             c = self.truth(v, st2, s)
             t, f = self.branch(st2, c, s)
+            self.refine_optional(s.test, t, f)
             if t is not None:
                 out.append((t, None))
             if f is not None:
@@ -545,6 +556,7 @@ class Engine:
                 continue
             c = self.truth(v, st2, s)
             t, f = self.branch(st2, c, s)
+            self.refine_optional(s.test, t, f)
             if t is not None:
                 out.extend(self.exec_block(s.body, t))
             if f is not None:
@@ -1384,8 +1396,6 @@ class Engine:
             if isinstance(cont, Raised):
                 out.append((s1, cont))
                 continue
-            if isinstance(e.slice, ast.Slice):
-                raise Unsupported("slicing", e)
             for (s2, key) in self.ev(e.slice, s1):
                 if isinstance(key, Raised):
                     out.append((s2, key))
@@ -1425,6 +1435,10 @@ class Engine:
                 if isinstance(k, VStr) and isinstance(key, VStr) and k.s == key.s:
                     return [(st, v)]
             raise Unsupported("lookup in dict literal", node)
+        if isinstance(cont, VPy) and isinstance(cont.obj, tuple) and cont.obj[0] == "boundmethod":
+            r = self.registry.subscript(self, st, cont, key, node)
+            if r is not None:
+                return r
         r = self.registry.subscript(self, st, cont, key, node)
         if r is not None:
             return r
@@ -1805,6 +1819,11 @@ class Engine:
         from . import builtins_model
 
         return builtins_model.call(self, e, st)
+
+    def ex_Slice(self, e, st):
+        if e.lower is None and e.upper is None and e.step is None:
+            return [(st, VPy(("fullslice",)))]
+        raise Unsupported("slice with bounds", e)
 
     def ex_Lambda(self, e, st):
         return [(st, VPy(("lambda", e)))]
